@@ -28,10 +28,14 @@ thread_local! {
     /// weak refs to every node built (C12)
     pub static ALL_NODES: RefCell<Vec<(Tag, WeakIncr<Val>)>> = RefCell::new(Vec::new());
     static TRACK_ALL: Cell<bool> = Cell::new(false);
+    /// handles of variables created inside bind closures (decoder 4), adopted by the interpreter
+    /// after the stabilise: (tag, handle, initial value)
+    pub static INNER_VARS: RefCell<Vec<(Tag, Var<Val>, Val)>> = RefCell::new(Vec::new());
 }
 
 pub fn reset(obs: &Rc<RefCell<ObsTable>>, read_in_fn: bool, track_all: bool) {
     INNER.with(|i| i.borrow_mut().clear());
+    INNER_VARS.with(|i| i.borrow_mut().clear());
     OBS_WEAK.with(|o| *o.borrow_mut() = Rc::downgrade(obs));
     CANARY.with(|c| *c.borrow_mut() = Rc::new(()));
     CONSTS.with(|c| c.borrow_mut().clear());
@@ -42,6 +46,7 @@ pub fn reset(obs: &Rc<RefCell<ObsTable>>, read_in_fn: bool, track_all: bool) {
 
 pub fn clear_thread_state() {
     INNER.with(|i| i.borrow_mut().clear());
+    INNER_VARS.with(|i| i.borrow_mut().clear());
     OBS_WEAK.with(|o| *o.borrow_mut() = Weak::new());
     CONSTS.with(|c| c.borrow_mut().clear());
     ALL_NODES.with(|c| c.borrow_mut().clear());
@@ -254,13 +259,28 @@ pub fn inst(e: &Expr, cx: &Cx) -> (Incr<Val>, Tag) {
             let t = new_tag();
             let can = canary();
             let k = *k;
-            let n = a.map(move |x: &Val| {
-                let _c = &can;
-                log(Event::Run { tag: t, role: Role::Map, args: vec![x.clone()] });
-                tick(Role::Map);
-                read_in_fn(t);
-                f1(k, x)
-            });
+            let n = if k >= 8 {
+                // the same node kind through the constructor that hands the closure a weak
+                // reference to the node being built (incremental-map is built on it)
+                a.map_cyclic(move |me: WeakIncr<Val>, x: &Val| {
+                    let _c = &can;
+                    log(Event::Run { tag: t, role: Role::Map, args: vec![x.clone()] });
+                    tick(Role::Map);
+                    read_in_fn(t);
+                    if me.upgrade().is_none() {
+                        panic!("harness: map_cyclic closure running although its own node is gone");
+                    }
+                    f1(k, x)
+                })
+            } else {
+                a.map(move |x: &Val| {
+                    let _c = &can;
+                    log(Event::Run { tag: t, role: Role::Map, args: vec![x.clone()] });
+                    tick(Role::Map);
+                    read_in_fn(t);
+                    f1(k, x)
+                })
+            };
             created(t, MKind::Map(k), vec![ta], cx, &n);
             (n, t)
         }
@@ -441,6 +461,35 @@ pub fn inst(e: &Expr, cx: &Cx) -> (Incr<Val>, Tag) {
             created(t, MKind::DependOn, vec![ta, tb], cx, &n);
             (n, t)
         }
+        Expr::NewVar(mode) => {
+            let v = cx.captured.clone().expect("harness bug: NewVar outside arm");
+            let t = new_tag();
+            let var = if *mode == 0 { cx.state.var(v.clone()) } else { cx.state.var_current_scope(v.clone()) };
+            let n = var.watch();
+            // a top-scope variable does not belong to the closure run that created it
+            let scope = if *mode == 0 { None } else { cx.scope };
+            if scope.is_some() {
+                INNER.with(|i| i.borrow_mut().push((t, n.weak())));
+            }
+            if TRACK_ALL.with(|c| c.get()) {
+                ALL_NODES.with(|i| i.borrow_mut().push((t, n.weak())));
+            }
+            log(Event::Created {
+                tag: t,
+                desc: NodeDesc {
+                    kind: MKind::Var,
+                    inputs: vec![],
+                    captured: Some(v.clone()),
+                    scope,
+                    arms: None,
+                    cutoff: CutKind::PartialEq,
+                    writes: vec![],
+                    env_refs: vec![],
+                },
+            });
+            INNER_VARS.with(|i| i.borrow_mut().push((t, var, v)));
+            (n, t)
+        }
         Expr::Discard(e1, e2) => {
             let dropped = inst(e1, cx);
             drop(dropped);
@@ -511,7 +560,7 @@ pub fn inst(e: &Expr, cx: &Cx) -> (Incr<Val>, Tag) {
             let vars = cx.vars.clone();
             let lhs_incr = a.clone();
             let gen = Cell::new(0u32);
-            let n = a.bind(move |v: &Val| {
+            let body = move |st: Option<&WeakState>, v: &Val| {
                 let _c = &can;
                 let g = gen.get();
                 gen.set(g + 1);
@@ -520,7 +569,7 @@ pub fn inst(e: &Expr, cx: &Cx) -> (Incr<Val>, Tag) {
                 read_in_fn(t);
                 let arm = pick_arm(v, arms2.len());
                 let cx2 = Cx {
-                    state: lhs_incr.state(),
+                    state: st.cloned().unwrap_or_else(|| lhs_incr.state()),
                     env: env.clone(),
                     vars: vars.clone(),
                     lhs: Some((lhs_incr.clone(), ta)),
@@ -530,7 +579,13 @@ pub fn inst(e: &Expr, cx: &Cx) -> (Incr<Val>, Tag) {
                 let (r, tr) = inst(&arms2[arm], &cx2);
                 log(Event::BindRet { tag: t, gen: g, rhs: tr });
                 r
-            });
+            };
+            // decoder 4: every third bind goes through `binds` (the closure is handed the state)
+            let n = if crate::choice::dv() >= 4 && t % 3 == 0 {
+                a.binds(move |st: &WeakState, v: &Val| body(Some(st), v))
+            } else {
+                a.bind(move |v: &Val| body(None, v))
+            };
             created_full(t, MKind::Bind, vec![ta], None, Some(arms.clone()), vec![], cx, Some(&n));
             (n, t)
         }
